@@ -279,8 +279,52 @@ let cmd_tree () =
     done
   with End_of_file -> ()
 
+(* lazy: "id <kinds> <history>"; kinds: one letter per schema in serialisation order
+   (J JSight, F JSight whose lazy compilation fails, R regex, P pseudo); history: accessors
+   separated by commas.  Output: id, then per call "cells=result". *)
+let cmd_lazy () =
+  try
+    while true do
+      let line = input_line stdin in
+      match List.filter (fun s -> s <> "") (String.split_on_char ' ' line) with
+      | [id; kinds; hist] ->
+        let kinds = if kinds = "." then "" else kinds in
+        let ds = List.map (fun c -> match c with
+            | 'J' -> { sd_kind = KJsight; sd_fails = false }
+            | 'F' -> { sd_kind = KJsight; sd_fails = true }
+            | 'R' -> { sd_kind = KRegex; sd_fails = false }
+            | _ -> { sd_kind = KPseudo; sd_fails = false }) (List.of_seq (String.to_seq kinds)) in
+        let h = List.map (fun a -> match a with
+            | "J" -> AJ | "JI" -> AJI | "O" -> AO | "OI" -> AOI | _ -> AT) (String.split_on_char ',' hist) in
+        let to_coq l = l and of_coq l = l in
+        let rec int_of_nat n = match n with O -> 0 | S m -> 1 + int_of_nat m in
+        let tr = of_coq (lazy_case (to_coq ds) (to_coq h)) in
+        let cell_char d c = match d.sd_kind, c with
+          | KPseudo, _ -> '.'
+          | KJsight, LzNone | KRegex, LzNone -> '-'
+          | KJsight, LzDone -> 'c'
+          | KJsight, LzErr -> 'e'
+          | KRegex, _ -> 'x' in
+        let show (cells, r) =
+          let cs = of_coq cells in
+          let b = Buffer.create 16 in
+          List.iter2 (fun d c -> Buffer.add_char b (cell_char d c)) ds cs;
+          let nats l = String.concat "." (List.map (fun n -> string_of_int (int_of_nat n)) (of_coq l)) in
+          let rs = match r with
+            | RJson (ind, ex) -> (if ind then "JI" else "J") ^ "[" ^ nats ex ^ "]"
+            | RJsonNull (ind, ex, nl) -> "NULL[" ^ nats nl ^ "]"
+            | RErrAt i -> "E" ^ string_of_int (int_of_nat i)
+            | ROpenApi ind -> (if ind then "OI" else "O")
+            | RTitle -> "T" in
+          Buffer.contents b ^ "=" ^ rs in
+        print_endline (id ^ " " ^ String.concat " " (List.map show tr))
+      | _ -> ()
+    done
+  with End_of_file -> ()
+
 let () =
   match Array.to_list Sys.argv with
   | _ :: "scan" :: _ -> cmd_scan ()
+  | _ :: "lazy" :: _ -> cmd_lazy ()
   | _ :: "tree" :: _ -> cmd_tree ()
   | _ -> prerr_endline "usage: model <scan>"; exit 2
